@@ -52,7 +52,11 @@ RULE = (
     "not, chained on injected nodes, with exact repetitions (node vs channel form), near-identical twins (1 / '1', "
     "True / 'True', None / 'None', [1] / '[1]', 1 / True / 1.0), in-process pickle round trips of the parents "
     "between expressions, and restart histories (save, continue in a child interpreter with another PYTHONHASHSEED, "
-    "load, the same expressions again); rewrite histories (expressions - many slices with channel bounds and chains "
+    "load, the same expressions again); edit histories (parents are two workflows and a macro that is stand-alone or "
+    "a child; between writing and re-writing every expression an ancestor is relabelled, the macro is adopted by / "
+    "moved between / taken out of workflows or relabelled, a source node that is owner or operand is relabelled in "
+    "the supported way, a new source takes a given-up name, optionally after a pickle round trip; twice); rewrite "
+    "histories (expressions - many slices with channel bounds and chains "
     "on them - are written, run, written AGAIN, then the sources get other values and EVERY node made so far, helper "
     "Slice nodes included, is pulled and compared with Python again; twice); families of LONG / LARGE / DEEP raw "
     "operands in near-identical pairs (strings of 31-2000 characters, ints of 41-400 digits, lists / tuples / sets / "
@@ -581,7 +585,8 @@ def gen_history(rng, n_ops, restart=False, rewrite=False, edits=False):
         ctxs = ["wf", "mac"] if any(x["ctx"] == "mac" for x in g.sources) else ["wf"]
         for _ in range(n_ops):
             if rng.random() < 0.25:
-                cands = [a for a in g.avail if a["ctx"] == rng.choice(ctxs)]
+                ctx = rng.choice(ctxs)
+                cands = [a for a in g.avail if a["ctx"] == ctx]
                 g.push(g.slice_op(cands))
             else:
                 g.push(*g.fresh())
@@ -1042,6 +1047,8 @@ def _same(a, b):
     if isinstance(a, types.BuiltinMethodType) and isinstance(b, types.BuiltinMethodType):
         # bound builtin methods compare their receivers by identity; a pickle round trip copies the receiver
         return a.__name__ == b.__name__ and _same(a.__self__, b.__self__)
+    if isinstance(a, slice) and isinstance(b, slice):
+        return all(_same(x, y) for x, y in ((a.start, b.start), (a.stop, b.stop), (a.step, b.step)))
     try:
         return type(a) is type(b) and bool(a == b or (a != a and b != b))
     except Exception:  # noqa: BLE001
@@ -1554,7 +1561,10 @@ class _Run:
                     except Exception as e:  # noqa: BLE001
                         got = ("exc", type(e).__name__)
             r["got"] = [got[0], got[1] if got[0] == "exc" else repr(got[1])]
-            if exp is not None:
+            # an auto-run that raised while some operand had no data yet ran on input defaults, not on the underlying
+            # values: no verdict on them
+            on_defaults = raised is not None and ("U" in flags or ochan.value is NOT_DATA)
+            if exp is not None and not on_defaults:
                 r["value_ok"] = (got[0] == exp[0]) and (got[1] == exp[1] if got[0] == "exc" else _same(got[1], exp[1]))
                 self.bump("cmp")
                 self.bump(f"cmp:{exp[0]}")
